@@ -69,6 +69,8 @@ VARIABLES
   trimTodo,     \* channels still to be trimmed by NewCircuitMap
   thr,          \* per thread: the operation in flight
   closedChans,  \* start-up input: fully closed channels
+  chanStatus,   \* start-up input: status of each outgoing channel that is still reported as open:
+                \* "default" | "borked" | "commitbc" (a commitment / closing tx was broadcast)
   resMsgs,      \* start-up input: outgoing keys with a stored resolution message
   nextIdx,      \* start-up input: NextLocalHtlcIndex per outgoing channel
   ret,          \* observation: what the last step returned to its caller
@@ -78,7 +80,7 @@ VARIABLES
   fresh,        \* history: NewCircuitMap has just returned
   nops, ncrash, nfail
 
-vars == <<dAdds, dKeys, pending, opened, closed, mode, trimTodo, thr, closedChans, resMsgs,
+vars == <<dAdds, dKeys, pending, opened, closed, mode, trimTodo, thr, closedChans, chanStatus, resMsgs,
           nextIdx, ret, addsCount, respCount, snap, fresh, nops, ncrash, nfail>>
 
 Idle == [op |-> "idle", pc |-> "idle", a |-> <<>>, d |-> <<>>, f |-> <<>>, af |-> <<>>,
@@ -92,6 +94,8 @@ Pend(in)      == {p \in pending : p.in = in}
 IsPending(in) == Pend(in) # {}
 OpenedAt(out) == {o \in opened : o[1] = out}
 IsClosedChan(c) == c # Source /\ c \in closedChans
+\* a channel that is fully closed, borked or being closed on chain is never handed to a link again
+NoLink(c) == IsClosedChan(c) \/ (c \in OutChans /\ chanStatus[c] # "default")
 
 Init ==
   /\ dAdds = {} /\ dKeys = {}
@@ -99,6 +103,7 @@ Init ==
   /\ mode = "up" /\ trimTodo = <<>>
   /\ thr = [t \in Threads |-> Idle]
   /\ closedChans = {} /\ resMsgs = {} /\ nextIdx = [c \in OutChans |-> 0]
+  /\ chanStatus = [c \in OutChans |-> "default"]
   /\ ret = NoRet
   /\ addsCount = [k \in InKeys |-> 0] /\ respCount = [k \in InKeys |-> 0]
   /\ snap = [adds |-> {}, keys |-> {}] /\ fresh = FALSE
@@ -160,7 +165,7 @@ CommitMem(t, batch) ==
         ELSE /\ ret' = NoRet
              /\ thr' = [thr EXCEPT ![t] = [Idle EXCEPT !.op = "commit", !.pc = "disk", !.a = r.a,
                                                         !.d = r.d, !.f = r.f, !.af = r.af]]
-  /\ UNCHANGED <<dAdds, dKeys, opened, closed, mode, trimTodo, closedChans, resMsgs, nextIdx,
+  /\ UNCHANGED <<dAdds, dKeys, opened, closed, mode, trimTodo, closedChans, chanStatus, resMsgs, nextIdx,
                  addsCount, respCount, snap, ncrash, nfail>>
   /\ fresh' = FALSE
 
@@ -174,7 +179,7 @@ CommitDisk(t, ok) ==
      ELSE /\ thr' = [thr EXCEPT ![t].pc = "rollback"]
           /\ ret' = NoRet
           /\ UNCHANGED <<dAdds, addsCount>>
-  /\ UNCHANGED <<dKeys, pending, opened, closed, mode, trimTodo, closedChans, resMsgs, nextIdx,
+  /\ UNCHANGED <<dKeys, pending, opened, closed, mode, trimTodo, closedChans, chanStatus, resMsgs, nextIdx,
                  respCount, snap, nops, ncrash>>
   /\ fresh' = FALSE
 
@@ -183,7 +188,7 @@ CommitRollback(t) ==
   /\ pending' = {p \in pending : p.in \notin Range(thr[t].a)}
   /\ ret' = Ret("io", 1, <<>>, thr[t].d, thr[t].af, None)
   /\ Finish(t)
-  /\ UNCHANGED <<dAdds, dKeys, opened, closed, mode, trimTodo, closedChans, resMsgs, nextIdx,
+  /\ UNCHANGED <<dAdds, dKeys, opened, closed, mode, trimTodo, closedChans, chanStatus, resMsgs, nextIdx,
                  addsCount, respCount, snap, fresh, nops, ncrash, nfail>>
 
 -----------------------------------------------------------------------------
@@ -218,7 +223,7 @@ OpenCheck(t, ks) ==
         \* touches the circuit is in flight
         /\ Assume("A4") => /\ ks[j][1] \notin Deleting \cup OpeningIn \cup TrimmingIn
                            /\ ~LinkBusy(ks[j][2][1])
-                           /\ ~IsClosedChan(ks[j][2][1])
+                           /\ ~NoLink(ks[j][2][1])
         \* A6, seen from the other side: no keystone for a circuit of a fully closed channel
         /\ Assume("A6") => ~IsClosedChan(ks[j][1][1])
   /\ LET bad == {j \in DOMAIN ks : OpenedAt(ks[j][2]) # {} \/ ~IsPending(ks[j][1])} IN
@@ -227,7 +232,7 @@ OpenCheck(t, ks) ==
           /\ UNCHANGED thr
      ELSE /\ ret' = NoRet
           /\ thr' = [thr EXCEPT ![t] = [Idle EXCEPT !.op = "open", !.pc = "disk", !.ks = ks]]
-  /\ UNCHANGED <<dAdds, dKeys, pending, opened, closed, mode, trimTodo, closedChans, resMsgs,
+  /\ UNCHANGED <<dAdds, dKeys, pending, opened, closed, mode, trimTodo, closedChans, chanStatus, resMsgs,
                  nextIdx, addsCount, respCount, snap, ncrash, nfail>>
   /\ fresh' = FALSE
 
@@ -242,7 +247,7 @@ OpenDisk(t, ok) ==
      ELSE /\ ret' = ErrRet("io")
           /\ Finish(t)
           /\ UNCHANGED dKeys
-  /\ UNCHANGED <<dAdds, pending, opened, closed, mode, trimTodo, closedChans, resMsgs, nextIdx,
+  /\ UNCHANGED <<dAdds, pending, opened, closed, mode, trimTodo, closedChans, chanStatus, resMsgs, nextIdx,
                  addsCount, respCount, snap, nops, ncrash>>
   /\ fresh' = FALSE
 
@@ -254,7 +259,7 @@ OpenApply(t) ==
      /\ opened' = {o \in opened : o[1] \notin {x[2] : x \in ks}} \cup {<<x[2], x[1]>> : x \in ks}
   /\ ret' = OkRet
   /\ Finish(t)
-  /\ UNCHANGED <<dAdds, dKeys, closed, mode, trimTodo, closedChans, resMsgs, nextIdx,
+  /\ UNCHANGED <<dAdds, dKeys, closed, mode, trimTodo, closedChans, chanStatus, resMsgs, nextIdx,
                  addsCount, respCount, snap, fresh, nops, ncrash, nfail>>
 
 -----------------------------------------------------------------------------
@@ -273,7 +278,7 @@ TrimSeq(c, i, ts) == IF \E o \in ts : o[1] = <<c, i>>
 TrimMem(t, c) ==
   /\ Call(t)
   \* the link trims from its channel's NextLocalHtlcIndex when it starts
-  /\ Assume("A4") => (~LinkBusy(c) /\ ~IsClosedChan(c))
+  /\ Assume("A4") => (~LinkBusy(c) /\ ~NoLink(c))
   /\ LET ts == TrimSet(c, nextIdx[c], opened) IN
      /\ pending' = TrimPending(pending, ts)
      /\ opened' = opened \ ts
@@ -282,7 +287,7 @@ TrimMem(t, c) ==
         ELSE /\ ret' = NoRet
              /\ thr' = [thr EXCEPT ![t] = [Idle EXCEPT !.op = "trim", !.pc = "disk",
                                                         !.ks = TrimSeq(c, nextIdx[c], ts)]]
-  /\ UNCHANGED <<dAdds, dKeys, closed, mode, trimTodo, closedChans, resMsgs, nextIdx,
+  /\ UNCHANGED <<dAdds, dKeys, closed, mode, trimTodo, closedChans, chanStatus, resMsgs, nextIdx,
                  addsCount, respCount, snap, ncrash, nfail>>
   /\ fresh' = FALSE
 
@@ -296,7 +301,7 @@ TrimDisk(t, ok) ==
      ELSE /\ ret' = ErrRet("io")
           /\ UNCHANGED dKeys
   /\ Finish(t)
-  /\ UNCHANGED <<dAdds, pending, opened, closed, mode, trimTodo, closedChans, resMsgs, nextIdx,
+  /\ UNCHANGED <<dAdds, pending, opened, closed, mode, trimTodo, closedChans, chanStatus, resMsgs, nextIdx,
                  addsCount, respCount, snap, nops, ncrash>>
   /\ fresh' = FALSE
 
@@ -312,7 +317,7 @@ Close(out) ==
           ELSE /\ closed' = closed \cup {in}
                /\ respCount' = [respCount EXCEPT ![in] = @ + 1]
                /\ ret' = Ret("none", 1, <<>>, <<>>, <<>>, in)
-  /\ UNCHANGED <<dAdds, dKeys, pending, opened, mode, trimTodo, thr, closedChans, resMsgs, nextIdx,
+  /\ UNCHANGED <<dAdds, dKeys, pending, opened, mode, trimTodo, thr, closedChans, chanStatus, resMsgs, nextIdx,
                  addsCount, snap, ncrash, nfail>>
   /\ fresh' = FALSE
 
@@ -327,7 +332,7 @@ Fail(in) ==
           ELSE /\ closed' = closed \cup {in}
                /\ respCount' = [respCount EXCEPT ![in] = @ + 1]
                /\ ret' = Ret("none", 1, <<>>, <<>>, <<>>, in)
-  /\ UNCHANGED <<dAdds, dKeys, pending, opened, mode, trimTodo, thr, closedChans, resMsgs, nextIdx,
+  /\ UNCHANGED <<dAdds, dKeys, pending, opened, mode, trimTodo, thr, closedChans, chanStatus, resMsgs, nextIdx,
                  addsCount, snap, ncrash, nfail>>
   /\ fresh' = FALSE
 
@@ -355,7 +360,7 @@ DeleteMem(t, keys) ==
      /\ thr' = [thr EXCEPT ![t] = [Idle EXCEPT !.op = "delete", !.pc = "disk", !.a = keys,
                                                 !.rem = rem, !.cl = cl]]
   /\ ret' = NoRet
-  /\ UNCHANGED <<dAdds, dKeys, mode, trimTodo, closedChans, resMsgs, nextIdx, snap, ncrash, nfail>>
+  /\ UNCHANGED <<dAdds, dKeys, mode, trimTodo, closedChans, chanStatus, resMsgs, nextIdx, snap, ncrash, nfail>>
   /\ fresh' = FALSE
 
 DeleteDisk(t, ok) ==
@@ -368,7 +373,7 @@ DeleteDisk(t, ok) ==
      ELSE /\ thr' = [thr EXCEPT ![t].pc = "restore"]
           /\ ret' = NoRet
           /\ UNCHANGED <<dAdds, dKeys>>
-  /\ UNCHANGED <<pending, opened, closed, mode, trimTodo, closedChans, resMsgs, nextIdx,
+  /\ UNCHANGED <<pending, opened, closed, mode, trimTodo, closedChans, chanStatus, resMsgs, nextIdx,
                  addsCount, respCount, snap, nops, ncrash>>
   /\ fresh' = FALSE
 
@@ -384,20 +389,20 @@ DeleteRestore(t) ==
      /\ respCount' = [k \in InKeys |-> IF k \in thr[t].cl THEN 1 ELSE respCount[k]]
   /\ ret' = ErrRet("io")
   /\ Finish(t)
-  /\ UNCHANGED <<dAdds, dKeys, mode, trimTodo, closedChans, resMsgs, nextIdx, snap, fresh,
+  /\ UNCHANGED <<dAdds, dKeys, mode, trimTodo, closedChans, chanStatus, resMsgs, nextIdx, snap, fresh,
                  nops, ncrash, nfail>>
 
 -----------------------------------------------------------------------------
 (* Environment: the channel state machine and the chain.                    *)
 \* the outgoing channel commits its next htlc id; its keystone was written before the signature
 AdvanceIdx(c) ==
-  /\ mode = "up" /\ ~IsClosedChan(c)
+  /\ mode = "up" /\ ~NoLink(c)
   /\ nextIdx[c] \in Ids
   /\ OpenedAt(<<c, nextIdx[c]>>) # {}
   /\ ~LinkBusy(c)
   /\ nextIdx' = [nextIdx EXCEPT ![c] = @ + 1]
   /\ ret' = NoRet
-  /\ UNCHANGED <<dAdds, dKeys, pending, opened, closed, mode, trimTodo, thr, closedChans, resMsgs,
+  /\ UNCHANGED <<dAdds, dKeys, pending, opened, closed, mode, trimTodo, thr, closedChans, chanStatus, resMsgs,
                  addsCount, respCount, snap, nops, ncrash, nfail>>
   /\ fresh' = FALSE
 
@@ -413,6 +418,7 @@ CloseChan(c) ==
   /\ Assume("A6") => /\ \A k \in dKeys \cup opened : k[2][1] = c => ~Uncommitted(k[1])
                      /\ \A t \in Threads : \A k \in Range(thr[t].ks) : thr[t].op = "open" => k[1][1] # c
   /\ closedChans' = closedChans \cup {c}
+  /\ UNCHANGED chanStatus
   /\ ret' = NoRet
   /\ UNCHANGED <<dAdds, dKeys, pending, opened, closed, mode, trimTodo, thr, resMsgs, nextIdx,
                  addsCount, respCount, snap, nops, ncrash, nfail>>
@@ -420,12 +426,25 @@ CloseChan(c) ==
 
 \* the chain resolver stores a resolution message for an outgoing htlc of a channel that is
 \* being closed on chain (it was on a commitment, so it has a keystone) before the close is final
+\* The channel leaves the default status (MarkBorked, MarkCommitmentBroadcasted, ...) but is still
+\* returned by FetchAllOpenChannels until it is fully closed.  Its circuits are trimmed at start-up
+\* like those of any open channel: an htlc that never reached a commitment cannot be on the
+\* commitment that goes on chain either.
+MarkChan(c, st) ==
+  /\ mode = "up" /\ ~IsClosedChan(c) /\ chanStatus[c] = "default" /\ st # "default"
+  /\ ~LinkBusy(c)
+  /\ chanStatus' = [chanStatus EXCEPT ![c] = st]
+  /\ ret' = NoRet
+  /\ UNCHANGED <<dAdds, dKeys, pending, opened, closed, mode, trimTodo, thr, closedChans, resMsgs, nextIdx,
+                 addsCount, respCount, snap, nops, ncrash, nfail>>
+  /\ fresh' = FALSE
+
 AddResMsg(out) ==
   /\ mode = "up" /\ out \notin resMsgs
   /\ out[1] \notin closedChans /\ \E k \in dKeys : k[1] = out
   /\ resMsgs' = resMsgs \cup {out}
   /\ ret' = NoRet
-  /\ UNCHANGED <<dAdds, dKeys, pending, opened, closed, mode, trimTodo, thr, closedChans, nextIdx,
+  /\ UNCHANGED <<dAdds, dKeys, pending, opened, closed, mode, trimTodo, thr, closedChans, chanStatus, nextIdx,
                  addsCount, respCount, snap, nops, ncrash, nfail>>
   /\ fresh' = FALSE
 
@@ -441,7 +460,7 @@ Crash ==
   /\ respCount' = [k \in InKeys |-> 0]
   /\ ret' = NoRet
   /\ fresh' = FALSE
-  /\ UNCHANGED <<dAdds, dKeys, closedChans, resMsgs, nextIdx, addsCount, nops, nfail>>
+  /\ UNCHANGED <<dAdds, dKeys, closedChans, chanStatus, resMsgs, nextIdx, addsCount, nops, nfail>>
 
 \* cleanClosedChannels, transcribed: what is deleted for the set of closed channels
 CleanCircuits == {in \in dAdds : IsClosedChan(in[1])} \cup
@@ -459,7 +478,7 @@ StartClean(ok) ==
           /\ ret' = NoRet
      ELSE /\ ret' = ErrRet("io")
           /\ UNCHANGED <<dAdds, dKeys, addsCount, mode>>
-  /\ UNCHANGED <<pending, opened, closed, trimTodo, thr, closedChans, resMsgs, nextIdx, respCount,
+  /\ UNCHANGED <<pending, opened, closed, trimTodo, thr, closedChans, chanStatus, resMsgs, nextIdx, respCount,
                  snap, fresh, nops, ncrash>>
 
 \* the channels FetchAllOpenChannels reports, in ascending order
@@ -484,7 +503,7 @@ StartRestore(ok) ==
           /\ trimTodo' = Active
      ELSE /\ mode' = "down" /\ ret' = ErrRet("io")
           /\ UNCHANGED <<pending, opened, closed, dKeys, trimTodo, fresh>>
-  /\ UNCHANGED <<dAdds, thr, closedChans, resMsgs, nextIdx, addsCount, respCount, snap, nops, ncrash>>
+  /\ UNCHANGED <<dAdds, thr, closedChans, chanStatus, resMsgs, nextIdx, addsCount, respCount, snap, nops, ncrash>>
 
 StartTrim(ok) ==
   /\ mode = "s2" /\ trimTodo # <<>>
@@ -503,7 +522,7 @@ StartTrim(ok) ==
              /\ pending' = {} /\ opened' = {} /\ trimTodo' = <<>>
              /\ mode' = "down" /\ fresh' = FALSE /\ ret' = ErrRet("io")
              /\ UNCHANGED dKeys
-  /\ UNCHANGED <<dAdds, closed, thr, closedChans, resMsgs, nextIdx, addsCount, respCount, snap, nops, ncrash>>
+  /\ UNCHANGED <<dAdds, closed, thr, closedChans, chanStatus, resMsgs, nextIdx, addsCount, respCount, snap, nops, ncrash>>
 
 -----------------------------------------------------------------------------
 Batches == SeqsUpTo(InKeys, MaxBatch)
@@ -521,6 +540,7 @@ Next ==
   \/ \E in \in InKeys : Fail(in)
   \/ \E c \in OutChans : AdvanceIdx(c)
   \/ \E c \in (InChans \cup OutChans) : CloseChan(c)
+  \/ \E c \in OutChans, st \in {"borked", "commitbc"} : MarkChan(c, st)
   \/ Crash
   \/ \E ok \in BOOLEAN : StartClean(ok) \/ StartRestore(ok) \/ StartTrim(ok)
 
@@ -538,7 +558,8 @@ AtMostOneResponse == \A k \in InKeys : respCount[k] <= 1
 \* after a restart the switch knows exactly the durably recorded circuits: circuits of fully
 \* closed channels are purged, unless the outgoing channel is the closed one and a resolution
 \* message is still to be delivered; a circuit stays open iff its outgoing htlc reached a
-\* commitment (index < NextLocalHtlcIndex; a closed channel is not trimmed), else it is half-open
+\* commitment (index < NextLocalHtlcIndex; a closed channel is not trimmed), else it is half-open -
+\* for every channel that is not fully closed, whatever its status (default, borked, broadcast)
 KsOf(s, in) == {k \in s.keys : k[2] = in}
 PurgedAtStart(s) ==
   {in \in s.adds : \/ IsClosedChan(in[1])
